@@ -58,6 +58,17 @@ class C10(SnapCheck):
             if rng.random() < 0.5:
                 s.preset(0, "z", vint(1), 0).digest().raw("V").raw("T").digest()
             out["failed"].append(s)
+        out["leftover"] = []
+        for i in range(16 if quick else 200):
+            # an earlier crash left temporary files behind; the next snapshots must not be disturbed by them
+            s = Script("lo%d" % i, {})
+            put_dataset(s, rng, now, rng.randrange(1, 4)); s.digest().raw("V").advance(rng.choice([1, 5]))
+            s.raw("L %s %d" % (rng.choice(["manifest", "manifest", "state"]), rng.choice([300, 4096])), ["leftover"])
+            put_dataset(s, rng, now, rng.randrange(1, 3))
+            s.digest().raw(rng.choice(["V", "K"])).cmd(0, "LASTSAVE").raw("T").digest().cmd(0, "LASTSAVE")
+            if i % 2:
+                s.advance(2).preset(0, "z", vint(i), 0).digest().raw("V").raw("T").digest()
+            out["leftover"].append(s)
         return out
     def rule(self):
         return ("every image of the data directory taken between the file-system operations of TakeSnapshot, and at every "
